@@ -336,6 +336,48 @@ def mentions_len(e, c):
     return any(z[0] == "call" and (z[1] or "").endswith("::len") or (z[0] == "un" and z[1] == "PtrMetadata") or z[0] == "len" for z in walk_deep(e, c.prov))
 
 
+def check_scanners(ck, prog, rule="C10.6", names=(("rusl::string::strlen::buf_strlen", True), ("rusl::string::strlen::strlen", False))):
+    """the length scanners: shared by C10.6 and C07.4 (argument and environment strings are measured by strlen)"""
+    # ---- C10.6 the length scanners the transfer table trusts: the index they return is one at which the byte was compared equal to 0,
+    # reached by counting up from 0 one position at a time (so it is the FIRST terminator); buf_strlen fails only at the end of the buffer
+    from ..engine import panics as _pn
+    for nm, is_buf in names:
+        sf = prog.fns.get(nm)
+        if not ck.anchor(rule, nm.split("::")[-1], sf):
+            continue
+        sc = prog.ctx(sf)
+        n_ret = 0
+        for b in sf["blocks"]:
+            if b.get("cleanup") or b["id"] not in sc.cfg.live_blocks():
+                continue
+            for i, st in enumerate(b["stmts"]):
+                if not (st["k"] == "assign" and st["dst"]["l"] == 0 and not st["dst"].get("p")):
+                    continue
+                rv = strip_casts(sc.prov.rvalue(st["rv"], (b["id"], i)))
+                if is_buf and isinstance(rv, tuple) and rv[0] == "agg" and rv[2] == "Err":
+                    facts = _pn.dominating_facts(sc, b["id"])
+                    at_end = any(f[0] == "cmp" and f[1] in ("Ge", "Eq") and mentions_len(f[3], sc) for f in facts)
+                    ck.ob(rule, f"{nm.split('::')[-1]}|not-terminated-only-at-the-end", at_end, fn=nm, site=sc.site(b["id"]), detail="buf_strlen may report a missing terminator only after the whole buffer was scanned")
+                    continue
+                idx = rv[3][0] if is_buf and isinstance(rv, tuple) and rv[0] == "agg" and rv[2] == "Ok" and rv[3] else (rv if not is_buf else None)
+                if idx is None:
+                    continue
+                n_ret += 1
+                idx = strip_casts(idx)
+                facts = _pn.dominating_facts(sc, b["id"])
+                # the compared value is a load THROUGH the returned index: buf[idx], *s.add(idx), s.add(idx).read()
+                at_nul = any(f[0] == "cmp" and f[1] == "Eq" and fold(f[3]) == 0 and
+                             any((z[0] == "index" and canon(strip_casts(z[2])) == canon(idx)) or
+                                 (z[0] == "call" and (z[1] or "").endswith("::add") and len(z[2]) == 2 and canon(strip_casts(z[2][1])) == canon(idx)) for z in walk_deep(f[2], sc.prov, limit=30)) for f in facts)
+                defs = [strip_casts(d) for d in sc.prov.expand(idx)] if isinstance(idx, tuple) and idx[0] == "var" else []
+                counts = len(defs) == 2 and any(fold(d) == 0 for d in defs) and any(isinstance(d, tuple) and d[0] == "bin" and d[1] in ("Add", "AddWithOverflow", "AddUnchecked") and fold(d[3]) == 1 and canon(strip_casts(d[2])) == canon(idx) for d in defs)
+                ck.ob(rule, f"{nm.split('::')[-1]}|returns-the-index-of-a-byte-compared-equal-to-nul", at_nul, fn=nm, site=sc.site(b["id"]),
+                      detail=f"the returned length {show(idx)} must be an index at which the byte was just compared equal to 0 (a word-at-a-time shortcut that only infers a zero byte does not establish it)")
+                ck.ob(rule, f"{nm.split('::')[-1]}|scans-every-position-from-zero", counts, fn=nm, site=sc.site(b["id"]),
+                      detail=f"the returned index must be a counter started at 0 and increased by exactly 1 (so the terminator found is the first one); definitions: {[show(d) for d in defs]}")
+        ck.floor(rule, f"{nm.split('::')[-1]} success returns", n_ret, 1)
+
+
 def run_one(ck, prog):
     n_sinks = 0
     for p, fn in sorted(prog.fns.items()):
@@ -416,44 +458,7 @@ def run_one(ck, prog):
         panics = [bb for bb, t in ctx.cfg.calls(lambda t: "panic" in (t.get("callee") or ""))]
         ck.ob("C10.2", "const-validator-asserts", len(panics) >= 2, fn=cv[0]["path"], detail=f"the const validator must reject both a missing terminator and an interior NUL (assertion sites: {len(panics)})")
 
-    # ---- C10.6 the length scanners the transfer table trusts: the index they return is one at which the byte was compared equal to 0,
-    # reached by counting up from 0 one position at a time (so it is the FIRST terminator); buf_strlen fails only at the end of the buffer
-    from ..engine import panics as _pn
-    for nm, is_buf in (("rusl::string::strlen::buf_strlen", True), ("rusl::string::strlen::strlen", False)):
-        sf = prog.fns.get(nm)
-        if not ck.anchor("C10.6", nm.split("::")[-1], sf):
-            continue
-        sc = prog.ctx(sf)
-        n_ret = 0
-        for b in sf["blocks"]:
-            if b.get("cleanup") or b["id"] not in sc.cfg.live_blocks():
-                continue
-            for i, st in enumerate(b["stmts"]):
-                if not (st["k"] == "assign" and st["dst"]["l"] == 0 and not st["dst"].get("p")):
-                    continue
-                rv = strip_casts(sc.prov.rvalue(st["rv"], (b["id"], i)))
-                if is_buf and isinstance(rv, tuple) and rv[0] == "agg" and rv[2] == "Err":
-                    facts = _pn.dominating_facts(sc, b["id"])
-                    at_end = any(f[0] == "cmp" and f[1] in ("Ge", "Eq") and mentions_len(f[3], sc) for f in facts)
-                    ck.ob("C10.6", f"{nm.split('::')[-1]}|not-terminated-only-at-the-end", at_end, fn=nm, site=sc.site(b["id"]), detail="buf_strlen may report a missing terminator only after the whole buffer was scanned")
-                    continue
-                idx = rv[3][0] if is_buf and isinstance(rv, tuple) and rv[0] == "agg" and rv[2] == "Ok" and rv[3] else (rv if not is_buf else None)
-                if idx is None:
-                    continue
-                n_ret += 1
-                idx = strip_casts(idx)
-                facts = _pn.dominating_facts(sc, b["id"])
-                # the compared value is a load THROUGH the returned index: buf[idx], *s.add(idx), s.add(idx).read()
-                at_nul = any(f[0] == "cmp" and f[1] == "Eq" and fold(f[3]) == 0 and
-                             any((z[0] == "index" and canon(strip_casts(z[2])) == canon(idx)) or
-                                 (z[0] == "call" and (z[1] or "").endswith("::add") and len(z[2]) == 2 and canon(strip_casts(z[2][1])) == canon(idx)) for z in walk_deep(f[2], sc.prov, limit=30)) for f in facts)
-                defs = [strip_casts(d) for d in sc.prov.expand(idx)] if isinstance(idx, tuple) and idx[0] == "var" else []
-                counts = len(defs) == 2 and any(fold(d) == 0 for d in defs) and any(isinstance(d, tuple) and d[0] == "bin" and d[1] in ("Add", "AddWithOverflow", "AddUnchecked") and fold(d[3]) == 1 and canon(strip_casts(d[2])) == canon(idx) for d in defs)
-                ck.ob("C10.6", f"{nm.split('::')[-1]}|returns-the-index-of-a-byte-compared-equal-to-nul", at_nul, fn=nm, site=sc.site(b["id"]),
-                      detail=f"the returned length {show(idx)} must be an index at which the byte was just compared equal to 0 (a word-at-a-time shortcut that only infers a zero byte does not establish it)")
-                ck.ob("C10.6", f"{nm.split('::')[-1]}|scans-every-position-from-zero", counts, fn=nm, site=sc.site(b["id"]),
-                      detail=f"the returned index must be a counter started at 0 and increased by exactly 1 (so the terminator found is the first one); definitions: {[show(d) for d in defs]}")
-        ck.floor("C10.6", f"{nm.split('::')[-1]} success returns", n_ret, 1)
+    check_scanners(ck, prog)
 
     # ---- C10.5 unchecked sinks inside private unsafe helpers: the obligation is discharged here, across the call ------------------------
     # `unsafe fn` helpers that are not public can only be reached from this crate's safe API, so their *_unchecked sinks are part of
